@@ -8,9 +8,11 @@
 //!                                  that includes quoted texts containing operator characters ("a>=b", "x == y", "<none>", "1.5>=x", ..):
 //!                                  an index holding one enabled rule per field must propose the rule that assigns F (reference: scan of
 //!                                  the rule actions for Set{field == F}).  Every lookup runs under catch_unwind (a panic is a finding).
-//!   c16_goal_field_engine          the same goals through BackwardEngine::query on a knowledge base whose rule `when Ready == true then
-//!                                  F = LITERAL-value`: the goal must be provable (index path or linear fallback) whenever a plain goal
-//!                                  `F OP simple-literal` with the same comparison outcome is provable
+//!   c16_goal_field_engine          the same split through BackwardEngine::query: rule Target `when Ready == true then F = V` plus a decoy rule
+//!                                  assigning the text of a proper prefix of the goal (every prefix longer than F): the goal must stay
+//!                                  provable (it is with Target alone).  Without the decoy the engine's linear fallback hides a wrong split.
+//!   c16_goal_field_fallback_scan   an engine built on an empty knowledge base (its index lists nothing), rules added afterwards: only the
+//!                                  linear scan of find_candidate_rules can propose them; the goal must be provable
 //!   c16_goal_field_any_text        find_candidates on all texts of <= 4 symbols over {a . = ! > < blank " é}: never panics
 use rust_rule_engine::backward::{BackwardEngine, ConclusionIndex};
 use rust_rule_engine::engine::rule::{Condition, ConditionGroup, Rule};
@@ -32,12 +34,10 @@ fn set_rule(name: &str, field: &str, value: Value) -> Rule {
 fn goals_for(field: &str) -> Vec<String> {
     let mut out = Vec::new();
     for op in OPS.iter() {
-        let word = op.starts_with(' ');
         for lit in LITERALS.iter() {
             for blanks in 0..3usize {
+                // (the word operators carry their own blanks; the extra blanks go around them)
                 let b = " ".repeat(blanks);
-                // the word operators carry their own blanks; extra blanks go around them
-                let _ = word;
                 out.push(format!("{}{}{}{}{}", field, b, op, b, lit));
             }
         }
@@ -76,59 +76,115 @@ fn c16_goal_field_split() -> (bool, String) {
     }
 }
 
-fn engine_for(field: &str, value: Value) -> BackwardEngine {
-    let kb = KnowledgeBase::new("c16c");
-    // decoys first: rules assigning OTHER fields, so that a wrong split has something else to propose
-    let _ = kb.add_rule(set_rule("Decoy1", "Other.Field", Value::Boolean(true)));
-    let _ = kb.add_rule(set_rule("Decoy2", "y", Value::Boolean(true)));
-    let _ = kb.add_rule(set_rule("Target", field, value));
-    BackwardEngine::new(kb)
-}
-
-/// the goal `F == LIT` with the rule setting F to the literal's value: provable iff the rule is proposed and fired
+/// The same split seen through BackwardEngine::query.  A wrong split is normally hidden by the engine's linear fallback (it runs when the
+/// index answer names no rule of the knowledge base), so every case also carries a DECOY rule that assigns the text of a proper prefix
+/// of the goal longer than the field (all such prefixes are tried: whatever wrong cut the index makes, one decoy is listed under it).
+/// Rule `Target: when Ready == true then F = V` makes the goal true; reference: a scan of the rule actions finds Target (it assigns the
+/// goal's field), so the goal is provable.  Control per case: the goal must be provable on a knowledge base holding Target alone
+/// (otherwise the evaluator, not the index, refuses the text and the case says nothing about C16).
 fn c16_goal_field_engine() -> (bool, String) {
     let mut tried = 0u64;
     let mut bad: Vec<String> = Vec::new();
-    let lits: [(&str, Value); 7] = [
-        ("true", Value::Boolean(true)),
-        ("\"VIP\"", Value::String("VIP".to_string())),
-        ("\"a>=b\"", Value::String("a>=b".to_string())),
-        ("\"x == y\"", Value::String("x == y".to_string())),
-        ("\"<none>\"", Value::String("<none>".to_string())),
-        ("\"1.5>=x\"", Value::String("1.5>=x".to_string())),
-        ("\"p contains q\"", Value::String("p contains q".to_string())),
+    // (operator, literal text, value Target assigns); literals avoid `>=`, `<=`, `==`, `!=` so that the goal evaluator of search.rs
+    // (which has its own operator search) reads the goal as intended
+    let cases: [(&str, &str, &str); 6] = [
+        (" contains ", "\"a<b\"", "zza<bzz"),
+        (" contains ", "\"<none>\"", "x<none>y"),
+        (" matches ", "\"a<b\"", "zza<bzz"),
+        (" contains ", "\"p>q\"", "p>q"),
+        ("==", "\"a<b\"", "a<b"),
+        ("==", "\"VIP\"", "VIP"),
     ];
+    let run = |rules: Vec<Rule>, goal: &str| -> Option<bool> {
+        let kb = KnowledgeBase::new("c16c");
+        for r in rules {
+            let _ = kb.add_rule(r);
+        }
+        let mut eng = BackwardEngine::new(kb);
+        let mut facts = Facts::new();
+        facts.set("Ready", Value::Boolean(true));
+        match catch_unwind(AssertUnwindSafe(|| eng.query(goal, &mut facts))) {
+            Err(_) => Some(false),
+            Ok(Err(_)) => None,
+            Ok(Ok(r)) => Some(r.provable),
+        }
+    };
     for f in ["User.IsVIP", "a.b.c", "x", "Total"].iter() {
-        for (lit, val) in lits.iter() {
-            // control: the same rule / facts with the plain literal text must be provable, otherwise the evaluator (not the index) is
-            // what refuses the goal and the case says nothing about C16
-            for (op, want) in [("==", true)].iter() {
-                for blanks in 0..2usize {
-                    let b = " ".repeat(blanks);
-                    let goal = format!("{}{}{}{}{}", f, b, op, b, lit);
+        for (op, lit, val) in cases.iter() {
+            for blanks in 0..2usize {
+                let b = " ".repeat(blanks);
+                let goal = format!("{}{}{}{}{}", f, b, op, b, lit);
+                let target = || set_rule("Target", f, Value::String(val.to_string()));
+                if run(vec![target()], &goal) != Some(true) {
+                    continue; // control failed: not a C16 case
+                }
+                for cut in f.len() + 1..goal.len() {
+                    if !goal.is_char_boundary(cut) {
+                        continue;
+                    }
+                    let decoy_field = goal[..cut].trim();
+                    if decoy_field == *f {
+                        continue;
+                    }
                     tried += 1;
-                    let mut facts = Facts::new();
-                    facts.set("Ready", Value::Boolean(true));
-                    let mut eng = engine_for(f, val.clone());
-                    let got = match catch_unwind(AssertUnwindSafe(|| eng.query(&goal, &mut facts))) {
-                        Err(_) => return (true, format!("BackwardEngine::query(`{}`) panicked", goal)),
-                        Ok(Err(_)) => continue, // the query language refuses the text: not a goal
-                        Ok(Ok(r)) => r.provable,
-                    };
-                    // reference: a fresh linear scan finds Target (it assigns F); firing it sets F = val, so `F == lit` holds and
-                    // `F != lit` does not
-                    if got != *want {
-                        bad.push(format!("query `{}` with rule `when Ready == true then {} = {}`: provable = {}, expected {}", goal, f, lit, got, want));
+                    let decoy = set_rule("Decoy", decoy_field, Value::Boolean(true));
+                    if run(vec![decoy, target()], &goal) != Some(true) {
+                        bad.push(format!(
+                            "rules Decoy: Set `{}`, Target: Set {} = \"{}\" (both `when Ready == true`), fact Ready = true: query `{}` is not provable; with Target alone it is",
+                            decoy_field, f, val, goal
+                        ));
                     }
                 }
             }
         }
     }
     if bad.is_empty() {
-        (false, format!("{} queries answered as a linear scan of the rule actions would", tried))
+        (false, format!("{} queries with a decoy rule answered as a scan of the rule actions would", tried))
     } else {
         (true, format!("{} of {} queries differ; first: {}", bad.len(), tried, bad[0]))
     }
+}
+
+/// The linear fallback of BackwardEngine::find_candidate_rules: an engine built on an EMPTY knowledge base has an index that lists
+/// nothing; rules added to the knowledge base afterwards (through engine.knowledge_base(), no rebuild_index) can only be proposed by the
+/// scan of the rule actions.  Reference: that scan finds Target (it assigns the goal's field), so the goal is provable; an enabled and a
+/// disabled decoy for other fields must not matter.  (An index that is stale but NOT empty is the known staleness: not claimed.)
+fn c16_goal_field_fallback_scan() -> (bool, String) {
+    let mut tried = 0u64;
+    for f in ["User.IsVIP", "a.b.c", "x", "Total"].iter() {
+        for (op, lit, val) in [("==", "\"VIP\"", "VIP"), (" contains ", "\"a<b\"", "zza<bzz"), ("==", "true", "")].iter() {
+            for blanks in 0..2usize {
+                let b = " ".repeat(blanks);
+                let goal = format!("{}{}{}{}{}", f, b, op, b, lit);
+                let value = if *lit == "true" { Value::Boolean(true) } else { Value::String(val.to_string()) };
+                let mut eng = BackwardEngine::new(KnowledgeBase::new("c16c-late"));
+                let mut off = set_rule("DecoyOff", "Other.Off", Value::Boolean(true));
+                off.enabled = false;
+                let _ = eng.knowledge_base().add_rule(set_rule("DecoyOn", "Other.On", Value::Boolean(true)));
+                let _ = eng.knowledge_base().add_rule(off);
+                let _ = eng.knowledge_base().add_rule(set_rule("Target", f, value));
+                let mut facts = Facts::new();
+                facts.set("Ready", Value::Boolean(true));
+                tried += 1;
+                match catch_unwind(AssertUnwindSafe(|| eng.query(&goal, &mut facts))) {
+                    Err(_) => return (true, format!("BackwardEngine::query(`{}`) panicked", goal)),
+                    Ok(Err(_)) => continue,
+                    Ok(Ok(r)) => {
+                        if !r.provable {
+                            return (
+                                true,
+                                format!(
+                                    "engine built on an empty knowledge base, then rules DecoyOn (Set Other.On), DecoyOff (disabled, Set Other.Off), Target (Set {} = {}) added, fact Ready = true: query `{}` is not provable although a scan of the rule actions finds Target",
+                                    f, lit, goal
+                                ),
+                            );
+                        }
+                    }
+                }
+            }
+        }
+    }
+    (false, format!("{} queries on an engine whose index lists nothing are answered by the scan", tried))
 }
 
 fn c16_goal_field_any_text() -> (bool, String) {
@@ -162,6 +218,7 @@ pub fn witnesses() -> Vec<crate::W> {
     vec![
         ("c16_goal_field_split", c16_goal_field_split),
         ("c16_goal_field_engine", c16_goal_field_engine),
+        ("c16_goal_field_fallback_scan", c16_goal_field_fallback_scan),
         ("c16_goal_field_any_text", c16_goal_field_any_text),
     ]
 }
